@@ -257,6 +257,10 @@ func (f *serverFactory) Register(string, protoCommonV1.TaskService_HandleServer)
 func (f *serverFactory) Deregister(int64, string) bool { return true }
 func (f *serverFactory) Nodes() []models.Node          { return nil }
 
+// DupWait is how long Query waits for a (forbidden) second response of one leaf request. Harnesses that issue very
+// many queries and do not check the one-response-per-request clause may lower it.
+var DupWait = time.Millisecond
+
 // QueryResult is what one query produced.
 type QueryResult struct {
 	Result    *commonmodels.ResultSet
@@ -347,7 +351,7 @@ func (b *Box) Query(q string, tr timeutil.TimeRange, lay Layout) *QueryResult {
 		select {
 		case <-st.ch:
 			res.Responses++
-		case <-time.After(time.Millisecond):
+		case <-time.After(DupWait):
 		}
 		res.Responses++
 	}
